@@ -9,7 +9,7 @@
    follows the repaired code; the formerly failing input is part of the non-vacuity example below. *)
 From EG Require Import Base.Prelude Model.Geometry Model.Style Model.Line Model.Thickline Model.Join Model.JoinTri.
 From EG Require Import Proofs.Join Proofs.JoinTri Proofs.JoinHull Proofs.JoinDraw Proofs.JoinTriDraw.
-From EG Require Proofs.JoinTriFill Proofs.JoinOutlineAny Proofs.JoinW1Fill Proofs.JoinW1All.
+From EG Require Proofs.JoinTriFill Proofs.JoinOutlineAny Proofs.JoinW1Fill Proofs.JoinW1All Proofs.JoinRange.
 Set Default Timeout 60.
 
 (* every corner of every segment that is not a skeleton, and the drawn (right) edge of every skeleton, lies in the box *)
@@ -87,12 +87,19 @@ Theorem C02_join_triangle_w1_fill_drawn_in_bbox : forall t al f px p, tri_big t 
   jt_styled_bounding_box t 1 al = Some (jt_bounding_box t) /\ contains (jt_bounding_box t) p = true.
 Proof. exact Proofs.JoinW1Fill.tri_w1_fill_in_bbox. Qed.
 
-(* (b3) stroke width 1, EVERY triangle (vertices within +-2^29), every alignment, with or without a fill colour: every pixel
-   of pixels() lies in the styled bounding box (Proofs/JoinW1All.v: proper triangles, triangles without area, collapsed Inside) *)
+(* (b3) stroke width 1, EVERY triangle, every alignment, with or without a fill colour: every pixel of pixels() lies in the
+   styled bounding box (Proofs/JoinW1All.v: proper triangles, triangles without area, collapsed Inside).  tri_big (+-2^29) is a
+   statement about the unbounded model; the `_range` form below carries the machine range (V + 14 <= 8191) in which the i32
+   arithmetic of is_collapsed / sorted_clockwise agrees with the model, and is the one the tie to the code is claimed for. *)
 Theorem C02_join_triangle_w1_all_drawn_in_bbox : forall t al fill px p, tri_big t ->
   jt_pixels t 1 al fill = Some px -> In p (map fst px) ->
   jt_styled_bounding_box t 1 al = Some (jt_bounding_box t) /\ contains (jt_bounding_box t) p = true.
 Proof. exact Proofs.JoinW1All.tri_w1_all_in_bbox. Qed.
+
+Theorem C02_join_triangle_w1_all_drawn_in_bbox_range : forall V t al fill px p, Proofs.JoinRange.range_ok V 1 -> Proofs.JoinRange.tri_within V t ->
+  jt_pixels t 1 al fill = Some px -> In p (map fst px) ->
+  jt_styled_bounding_box t 1 al = Some (jt_bounding_box t) /\ contains (jt_bounding_box t) p = true.
+Proof. exact Proofs.JoinW1All.tri_w1_all_in_bbox_range. Qed.
 
 (* the geometric core: the scanline of a thick segment stays inside the x hull of the corners of its two joins *)
 Theorem C02_join_thick_segment_scanline_in_hull : forall lo hi t y,
